@@ -463,10 +463,13 @@ def run_after_failed(case, ctx):
     except Exception as e:
         raise unexpected(e, "setup-raises")
     dev = clf.device
-    where, i, fkind, phase = case["fault"]
+    where, i, fkind, phase = case["fault"][:4]
+    burst = case["fault"][4] if len(case["fault"]) > 4 else 0
     i = i % max(n1, 1)
     k = i if where == "abs" else max(n1, 1) - 1 - i
-    dev.arm([k, fkind, 0, phase])
+    dev.arm([k, fkind, burst, phase])
+    if burst:
+        ctx.label("first-write-disturbed-by-burst:%d" % burst)
     st1 = "returned"
     try:
         ndef.octets = m1
@@ -947,9 +950,16 @@ def after_failed_strategy(tier):
         "old_seed": st.integers(0, 255),
         "m1": lens, "m1_seed": st.integers(0, 255),
         "m2": lens, "m2_seed": st.integers(0, 255),
+        # the disturbance: persistent until the assignment has ended (0), or
+        # a burst of 3 / 4 / 6 exchanges (the retries of one or two commands
+        # are used up, then the tag answers again: whatever the library does
+        # to clean up reaches the tag), or one command refused by the tag
         "fault": st.tuples(pos, st.sampled_from(tc.HIST_KINDS),
-                           st.sampled_from(["cmd", "rsp"])).map(
-            lambda t: [t[0][0], t[0][1], t[1], t[2]]),
+                           st.sampled_from(["cmd", "rsp"]),
+                           st.sampled_from([0, 0, 3, 3, 4, 6, 1])).map(
+            lambda t: [t[0][0], t[0][1], t[1], t[2],
+                       (1 if t[1] == "refuse" else 3 if t[3] == 1
+                        else t[3])]),
         "reuse": st.sampled_from([True, True, True, False]),
         "cuts": st.just("all" if tier == "thorough" else "edges")})
 
